@@ -204,13 +204,15 @@ def varexp_gen(tier, label="Gen_VarExp/worlds", extra=()):
                timeout=3600)
 
 
-VAR_MC = dict(NameTab="<-TabNK", ShapesA="<-ShSmall", ShapesB="<-ShSmall", ShapesC="<-ShSmall", ShapesK="<-ShK",
-              EnvSets="<-EnvsAll", ResSets="<-ResAll", Groups="={}")
+def var_mc(tier):
+    q = tier == "quick"
+    return dict(NameTab="<-TabNK", ShapesA="<-ShSmall", ShapesB="<-ShSmall", ShapesC="<-ShSmall", ShapesK="<-ShK",
+                EnvSets="<-EnvsQuick" if q else "<-EnvsAll", ResSets="<-ResQuick" if q else "<-ResAll", Groups="={}")
 
 
 def c02(tier, seed):
     return [
-        MC("Gen_VarExp", VAR_MC, invariants=["NoSilentEmpty", "LookupOrder"], label="MC_VarExp/lookup-order"),
+        MC("Gen_VarExp", var_mc(tier), invariants=["NoSilentEmpty", "LookupOrder"], label="MC_VarExp/lookup-order"),
         varexp_gen(tier),
         varexp_gen("quick", label="Gen_VarExp/late-binding", extra=["--split-merge", "--every", "3" if tier == "quick" else "1"]),
         GEN("Gen_VarMixed", dict(NameTab="<-TabMixed"), "varexp", label="Gen_VarMixed/node-shapes", min_cases=500),
@@ -226,7 +228,7 @@ def c08(tier, seed):
            spec="Spec", label="MC_Steps/terminates"),
         MC("UcfgVarExpSteps", dict(Dev="<-FlatDev"), invariants=["StackBounded"], spec="Spec", expect_violation=True,
            label="MC_Steps/refute-FlattenFreshActiveSet"),
-        MC("Gen_VarExp", VAR_MC, invariants=["NoFalseCycle", "FlattenReturns"], label="MC_VarExp/no-false-cycle"),
+        MC("Gen_VarExp", var_mc(tier), invariants=["NoFalseCycle", "FlattenReturns"], label="MC_VarExp/no-false-cycle"),
         varexp_gen(tier),
         GEN("Gen_VarMixed", dict(NameTab="<-TabMixed"), "varexp", label="Gen_VarMixed/node-shapes", min_cases=500),
     ]
